@@ -1642,6 +1642,14 @@ impl<'a> Parser<'a> {
                 // declare enum Name { ... }
                 self.parse_ambient_enum_declaration()?;
             }
+            TokenKind::Type => {
+                // declare type Name = ...;
+                self.parse_type_alias()?;
+            }
+            TokenKind::Interface => {
+                // declare interface Name { ... }
+                self.parse_interface()?;
+            }
             TokenKind::Identifier(s) if s.as_ref() == "global" => {
                 // declare global { ... }
                 self.parse_ambient_global_declaration()?;
